@@ -69,6 +69,19 @@ C['C17']=dict(engine="xplore", design="DESIGN.md §6 C17",
   technique="exhaustive enumeration of templates (arity 1..4, thorough 5, over 7 known/unknown element kinds at every position) x value shapes x 3 decoding modes on the real collector against the refcodec/tmplstore reference",
   text="All 2800 (thorough 19607) templates x variable-length rotations over {0,1,254,255,300} x 1-2 records x {strict, keep, drop}, each also after an earlier valid definition of the same id: strict rejects the template, forgets the older one and rejects the data; keep delivers every unknown field as an octet array with exactly the received bytes; drop omits exactly the unknown fields; known fields always decode to their reference value.",
   note="Trusted: refcodec/colmodel. Unknown kinds: IANA and enterprise, fixed and variable, unknown id in a known enterprise.")
+
+C['C01']=dict(engine="xplore", design="DESIGN.md §6 C01",
+  technique="bounded-exhaustive enumeration of templates x boundary value vectors x record counts, each sent by the real exporter to the real collector over real loopback tcp/udp/tls/dtls (IPv4 and IPv6) and compared field by field",
+  text="Every template of arity 1..2 (thorough 3, plus every registry element) over a 28-element alphabet covering all 18 supported types in all registries, with boundary-value cross products, message-filling variable-length values and record counts fit-1/fit, on all 8 transport x address-family configurations, followed by an exporter restart that reuses template ids: what arrives on GetMsgChan() equals what was handed to SendSet (domain, template fields with id/enterprise/type/length/name in order, record count, every value on its raw bits).",
+  note="Trusted: refcodec (for sizes), real kernel sockets and crypto (schedules are the OS's, only inputs/configurations are enumerated). DTLS regular cases stay within 8155 bytes per message; larger ones are a recorded known finding. Arity > 3 mixes are not enumerated.")
+C['C02']=dict(engine="xplore", design="DESIGN.md §6 C02",
+  technique="the C01 input space sent by the real exporter over real loopback tcp and udp sockets to a raw peer socket; every message read from the wire judged by an independent RFC 7011 parser",
+  text="Same templates, values and record counts as C01: every byte string read from the peer socket must be one well-formed message (version 10, header length = bytes received = SendSet's return, one set covering the rest, set id 2 / template id, template record with enterprise bit and PEN exactly for enterprise elements, fields at template width or correctly length-prefixed) whose parsed values equal the values given; oversized sets must be refused with nothing on the wire.",
+  note="Trusted: refcodec shares no code with the library. Real sockets; inputs enumerated.")
+C['C18']=dict(engine="xplore", design="DESIGN.md §6 C18",
+  technique="exhaustive enumeration of the TLS/DTLS acceptance matrix (349 cells: certificate kinds x ServerName x client certificate x client CA x peer max version x role, plaintext peers, trust sequences), each a real session on loopback with certificates minted in process, against a policy predicate",
+  text="Library exporter vs hand-made TLS server, hand-made TLS client vs library collector, library vs library over TLS and DTLS, plaintext peers against encrypted endpoints, and two-step sequences against one long-lived server: messages flow exactly when the certificate chains to the configured CA, is inside its validity period, matches the expected name/address, the version is at least 1.2 and (when a client CA is configured) the client certificate comes from it; nothing is ever accepted from or sent over a plaintext session.",
+  note="Trusted: Go crypto/tls and pion/dtls as the peers' implementations; the policy predicate. DTLS without a configured ServerName checks the chain only (two cells left open). A refusal is observed as 'nothing delivered within 400 ms'.")
 checks=[]
 for pid in sorted(C):
     c=C[pid]
